@@ -255,7 +255,8 @@ fn judge_and_record(
 ) -> Option<exec::ExecResult> {
     CURRENT_TRACE.with(|t| *t.borrow_mut() = Some(trace.clone()));
     let t2 = trace.clone();
-    let r = std::panic::catch_unwind(move || exec::execute(&t2, &ExecOpts::default()));
+    let opts = ExecOpts::for_prop(prop);
+    let r = std::panic::catch_unwind(move || exec::execute(&t2, &opts));
     out.evaluations += 1;
     match r {
         Ok(res) => {
@@ -455,11 +456,11 @@ fn cmd_run(a: &Args, sweep: bool) -> i32 {
         } else {
             let fl = &f.failures[0];
             let min = shrink::shrink(&f.trace, &prop, fl.check, budget);
-            let v = shrink::judge(&min);
+            let v = shrink::judge_for(&min, Some(&prop));
             let (min, v) = if shrink::has_target(&v, &prop, fl.check).is_some() {
                 (min, v)
             } else {
-                (f.trace.clone(), shrink::judge(&f.trace))
+                (f.trace.clone(), shrink::judge_for(&f.trace, Some(&prop)))
             };
             let mf = v
                 .failures
@@ -642,6 +643,7 @@ fn cmd_replay(a: &Args) -> i32 {
     let opts = ExecOpts {
         verbose,
         stop_at_first: !verbose,
+        prop: prop.clone(),
     };
     let t2 = tr.clone();
     let r = std::panic::catch_unwind(move || exec::execute(&t2, &opts));
